@@ -22,8 +22,6 @@
 (* the as-is model allows was seen (did repetition explore the orders?).        *)
 EXTENDS RouteResolve, Json
 
-VARIABLES i, bad, stat
-
 Log  == ndJsonDeserialize("io.ndjson")
 Side == JsonDeserialize("side.json")
 TrVarTexts  == {Side.vars[k] : k \in DOMAIN Side.vars}
@@ -35,14 +33,17 @@ RouteMethods == {"GET", "HEAD", "POST", "DELETE", "UPDATE", "PUT", "PATCH", AnyM
 ReqMethods   == {"GET", "HEAD", "POST", "DELETE", "PUT", "PATCH", "OPTIONS"}
 Statuses     == {200, 404, 405}
 
+WFTable(T) == /\ Len(T) >= 1
+              /\ \A k \in 1..Len(T) : T[k].m \in RouteMethods /\ Len(T[k].e) >= 1
+              /\ \A j, k \in 1..Len(T) : j # k => T[j] # T[k]
+BaseOK == Side.table = <<>> \/ WFTable(Side.table)          \* evaluated once (it is a constant)
+
 Tab(rec) == IF rec.t = <<>> THEN Side.table ELSE rec.t
 
 \* the domain of the contract: a record outside it is reported as "not-a-case" (no verdict), never as a violation
 WF(rec) ==
   LET T == Tab(rec)
-  IN /\ Len(T) >= 1
-     /\ \A k \in 1..Len(T) : T[k].m \in RouteMethods /\ Len(T[k].e) >= 1
-     /\ \A j, k \in 1..Len(T) : j # k => T[j] # T[k]
+  IN /\ IF rec.t = <<>> THEN Len(T) >= 1 /\ BaseOK ELSE WFTable(T)
      /\ rec.q.m \in ReqMethods /\ Len(rec.q.p) >= 1
      /\ \A k \in 1..Len(rec.q.p) : ~IsVar(rec.q.p[k])
      /\ Len(rec.solo) = Len(T) /\ \A k \in 1..Len(T) : rec.solo[k] \in Statuses
@@ -81,38 +82,33 @@ Judge(rec) ==
                                    \o "/" \o Step(M, rec.q)
           ELSE ""
 
-\* --- model conformance (informational)
-SetOf(T) == {T[k] : k \in 1..Len(T)}
-SoloModel(r, q) == Cascade(IF Candidate(r, q) THEN <<r>> ELSE <<>>, q).st
+\* --- model conformance (informational): 1/0 flags
+\*   solo : every one-route result is the model's;  asis : the results are among those the as-is model allows;
+\*   fixed: the result is the design's choice;  tie : the as-is model allows more than one result;  all : all of them were seen
+B(x) == IF x THEN 1 ELSE 0
 Conf(rec) ==
-  IF ~WF(rec) THEN [solo |-> FALSE, asis |-> FALSE, fixed |-> FALSE, tie |-> FALSE, all |-> FALSE]
-  ELSE LET T == Tab(rec)
-           C == Cands(SetOf(T), rec.q)
-           A == Outcomes(C, rec.q)
-           R == Results(rec)
-       IN [solo  |-> \A k \in 1..Len(T) : rec.solo[k] = SoloModel(T[k], rec.q),
-           asis  |-> R \subseteq A,
-           fixed |-> IF DOMAIN TokRank = {} THEN FALSE ELSE R = {Cascade(Canon(C), rec.q)},
-           tie   |-> Cardinality(A) > 1,
-           all   |-> R = A]
+  IF ~WF(rec) THEN <<0, 0, 0, 0, 0>>
+  ELSE LET T  == Tab(rec)
+           q  == rec.q
+           tp == Parts(Norm(q.p))
+           CI == {k \in 1..Len(T) : IF T[k].e = Root THEN TRUE ELSE MethodOK(T[k], q) /\ PartsMatch(Parts(Norm(T[k].e)), tp)}
+           C  == {T[k] : k \in CI}
+           A  == Outcomes(C, q)
+           R  == Results(rec)
+       IN << B(\A k \in 1..Len(T) : rec.solo[k] = IF k \notin CI THEN 404 ELSE IF MethodOK(T[k], q) THEN 200 ELSE 405),
+             B(R \subseteq A),
+             B(R = {Cascade(Canon(C, q), q)}),
+             B(Cardinality(A) > 1),
+             B(R = A) >>
 
-Stat0 == [solo |-> 0, asis |-> 0, fixed |-> 0, tie |-> 0, tieall |-> 0, tieone |-> 0]
-Upd(s, rec) ==
-  LET c == Conf(rec)
-      one == Cardinality(Results(rec)) = 1
-  IN [solo   |-> s.solo + (IF c.solo THEN 1 ELSE 0),
-      asis   |-> s.asis + (IF c.solo /\ c.asis THEN 1 ELSE 0),
-      fixed  |-> s.fixed + (IF c.solo /\ c.fixed THEN 1 ELSE 0),
-      tie    |-> s.tie + (IF c.tie THEN 1 ELSE 0),
-      tieall |-> s.tieall + (IF c.tie /\ c.all THEN 1 ELSE 0),
-      tieone |-> s.tieone + (IF c.tie /\ c.asis /\ one THEN 1 ELSE 0)]
+StepOf(rec) == IF WF(rec) THEN Step(Matching(rec), rec.q) ELSE "not-a-case"
 
-TInit == table = {} /\ req = [m |-> "", p |-> <<>>] /\ seen = {} /\ i = 1 /\ bad = {} /\ stat = Stat0
-TNext == /\ i <= Len(Log)
-         /\ LET k == Judge(Log[i]) IN bad' = IF k = "" THEN bad ELSE bad \cup {[idx |-> i, key |-> k]}
-         /\ stat' = Upd(stat, Log[i])
-         /\ i' = i + 1
-         /\ UNCHANGED vars
-TSpec == TInit /\ [][TNext]_<<vars, i, bad, stat>>
-Report == i <= Len(Log) \/ PrintT(ToJson([n |-> Len(Log), bad |-> bad, stat |-> stat]))
+\* one line per record; the check only counts the flags and collects the non-empty keys
+Judged(z) == \A n \in 1..Len(Log) : PrintT(ToJson([i |-> n, k |-> Judge(Log[n]), c |-> Conf(Log[n]), s |-> StepOf(Log[n])]))
+ASSUME Judged(0)   \* (an argument so that it is evaluated here, once, and not pre-evaluated as a constant)
+
+TInit == table = {} /\ req = [m |-> "", p |-> <<>>] /\ seen = {}
+TNext == UNCHANGED vars
+TSpec == TInit /\ [][TNext]_vars
+Done == PrintT(ToJson([n |-> Len(Log), done |-> TRUE]))
 =============================================================================
